@@ -68,6 +68,25 @@ fn main() {
         write!(names, "\"{m}\", ").unwrap();
     }
     writeln!(code, "pub const S3_METHODS: &[&str] = &[{names}];").unwrap();
+    // XML re-encoders: every type that has both SerializeContent and DeserializeContent in xml/generated.rs
+    let x = format!("{repo}/crates/s3s/src/xml/generated.rs");
+    println!("cargo:rerun-if-changed={x}");
+    let xml = std::fs::read_to_string(&x).unwrap();
+    let mut ser = std::collections::BTreeSet::new();
+    let mut de = std::collections::BTreeSet::new();
+    for l in xml.lines() {
+        if let Some(r) = l.strip_prefix("impl SerializeContent for ") {
+            ser.insert(r.trim_end_matches(" {").trim().to_string());
+        }
+        if let Some(r) = l.strip_prefix("impl<'xml> DeserializeContent<'xml> for ") {
+            de.insert(r.trim_end_matches(" {").trim().to_string());
+        }
+    }
+    writeln!(code, "pub fn xml_reencode(ty: &str, xml: &[u8]) -> serde_json::Value {{\n    match ty {{").unwrap();
+    for t in ser.intersection(&de) {
+        writeln!(code, "        \"{t}\" => crate::xmlre::reencode::<s3s::dto::{t}>(xml),").unwrap();
+    }
+    writeln!(code, "        _ => serde_json::json!({{\"unknown_type\": ty}}),\n    }}\n}}").unwrap();
     let out = std::env::var("OUT_DIR").unwrap();
     std::fs::write(format!("{out}/generated.rs"), code).unwrap();
 }
